@@ -2505,6 +2505,10 @@ class ProvDocument(ProvBundle):
                     "WARNING: not saving as location " + "is not a local file reference"
                 )
                 return
+            if scheme != "file":
+                # a plain local path: characters that are URL syntax
+                # ('#', '?', ';', ':') are part of the file name
+                path = location
             fd, name = tempfile.mkstemp()
             stream = os.fdopen(fd, "wb")
             serializer.serialize(stream, **args)
